@@ -235,6 +235,9 @@ def shape_triple(item, ob):
 
 def run_shape(item, ob):
     fam, payload = item
+    if fam == 'pair':
+        from props import equiv
+        equiv.MIR = MIR; return equiv.run_item(item, ob)
     {'wrapper': shape_wrapper, 'section': shape_section, 'triple': shape_triple}[fam](payload, ob)
 
 def main(tier, seed, t0):
@@ -255,6 +258,9 @@ def main(tier, seed, t0):
         if tier == 'quick': pairs = rnd.sample(pairs, 8)
         for a, b in pairs: items.append(('triple', (st, a, b)))
         for a in levels: items.append(('triple', (st, a, None)))
+    # statement level: the application forms of the surface language agree (real evaluator on real parse trees, props/equiv.py)
+    from props import equiv
+    equiv.preparse('C04'); items += equiv.items_for('C04')
     rnd.shuffle(items)
     merged, per = pmap(run_shape, items, tier)
     return finish(PROP, tier, seed, merged, t0, th=th,
